@@ -67,7 +67,7 @@ def worlds(draw, profile):
     cell = draw(st.sampled_from(profile.cells))
     t = TDIM[cell]
     g = draw(st.integers(t, 3)) if profile.manifolds else t
-    if profile.interior:
+    if profile.interior and not profile.manifolds:
         g = t
     fields = {}
 
